@@ -27,7 +27,8 @@ var c07Tris = []string{"timestampsFullPrecision", "pageArith", "limitZeroAll", "
 	"coldFilterCreated", "coldFilterUpdated", "coldFilterExpire", "coldFilterValueType",
 	"addGuardCreated", "addGuardUpdated", "addGuardExpire", "addGuardValueType",
 	"updRefreshCreated", "updRefreshUpdated", "updRefreshValue", "updRefreshExpireOnFlag",
-	"typeChangeDetected", "valueShared", "flagsSticky", "setVoidClearsTyped",
+	"typeChangeDetected", "valueShared", "flagsSticky", "setVoidClearsTyped", "initialisedAfterFill",
+	"refileGuardExpire", "patchExpiredReindexesAll", "claimPathsStandard",
 	"getBeaconServesAllValueTypes", "getBeaconBuildsRequestedType"}
 
 func c07Run(fs *Facts) {
@@ -56,7 +57,9 @@ func c07Run(fs *Facts) {
 		c07LimitZero(fs, f)
 		c07Window(fs, f)
 		c07GetBeacon(fs, f)
+		c07BuildOrder(fs, f)
 	}
+	c07Claim(fs)
 	if f, err := Load("app/server/gateway/gateway.go"); err != nil {
 		fs.Err("%v", err)
 	} else {
@@ -447,8 +450,18 @@ func c07Save(fs *Facts, f *File) {
 		return
 	}
 	second, ok := first.Else.(*ast.IfStmt)
-	expOK := ok && f.Str(second.Cond) == "t.IsExpirationTimeChanged()" && second.Else == nil &&
-		f.Str(second.Body) == "{ s.deleteTreasureIfBeaconInitialized(s.expirationTimeBeaconASC, t.GetKey()) s.deleteTreasureIfBeaconInitialized(s.expirationTimeBeaconDESC, t.GetKey()) if t.GetExpirationTime() != 0 { s.addToExpirationTimeBeacon(t) } }"
+	const expDrop = "{ s.deleteTreasureIfBeaconInitialized(s.expirationTimeBeaconASC, t.GetKey()) s.deleteTreasureIfBeaconInitialized(s.expirationTimeBeaconDESC, t.GetKey()) "
+	expGuarded := ok && f.Str(second.Cond) == "t.IsExpirationTimeChanged()" && second.Else == nil &&
+		f.Str(second.Body) == expDrop+"if t.GetExpirationTime() != 0 { s.addToExpirationTimeBeacon(t) } }"
+	expBare := ok && f.Str(second.Cond) == "t.IsExpirationTimeChanged()" && second.Else == nil &&
+		f.Str(second.Body) == expDrop+"s.addToExpirationTimeBeacon(t) }"
+	expOK := expGuarded || expBare
+	guardFact := Unknown
+	if expGuarded || first.Else == nil {
+		guardFact = Yes // (no expiration branch at all: nothing is re-added)
+	} else if expBare {
+		guardFact = No
+	}
 	expFact := TriOf(expOK)
 	if first.Else != nil && !expOK {
 		expFact = Unknown // an else-branch of another shape: only this fact is lost
@@ -485,6 +498,7 @@ func c07Save(fs *Facts, f *File) {
 		return
 	}
 	fs.Tri("updRefreshExpireOnFlag", expFact, where)
+	fs.Tri("refileGuardExpire", guardFact, where)
 	fs.Tri("updRefreshCreated", crt, where)
 	fs.Tri("updRefreshUpdated", upd, where)
 	fs.Tri("updRefreshValue", val, where)
@@ -672,5 +686,33 @@ func c07Timestamps(fs *Facts, f *File) {
 	where := "app/server/gateway/gateway.go:" + itoa(f.Line(po))
 	if ok {
 		fs.Tri("timestampsFullPrecision", Yes, where)
+	}
+}
+
+// buildBeacon: is `initialized` raised before the slice is filled (old), or published after the
+// sort under the build lock (new)?
+func c07BuildOrder(fs *Facts, f *File) {
+	fd := f.Func("swamp", "buildBeacon")
+	if fd == nil {
+		return
+	}
+	c07Canon(fd, []string{"s", "beaconASC", "beaconDESC", "bc", "err", "err"})
+	src := f.Str(fd.Body)
+	where := c07At(c07Swamp, f, fd)
+	fill := func(b string) int { return strings.Index(src, b+".PushManyFromMap(s.treasuresForBeacon(bc))") }
+	flagFirst := func(b string) bool {
+		i := strings.Index(src, "if !"+b+".IsInitialized() { "+b+".SetInitialized(true)")
+		return i >= 0 && i < fill(b)
+	}
+	flagLast := func(b string) bool {
+		return !strings.Contains(src, "if !"+b+".IsInitialized() { "+b+".SetInitialized(true)") &&
+			strings.Contains(src, "} else { "+b+".SetInitialized(true) }") && fill(b) >= 0
+	}
+	locked := strings.Contains(src, "s.beaconBuildMu.Lock() defer s.beaconBuildMu.Unlock() if !beaconASC.IsInitialized() {")
+	switch {
+	case flagFirst("beaconASC") && flagFirst("beaconDESC") && !locked:
+		fs.Tri("initialisedAfterFill", No, where)
+	case flagLast("beaconASC") && flagLast("beaconDESC") && locked:
+		fs.Tri("initialisedAfterFill", Yes, where)
 	}
 }
